@@ -197,7 +197,17 @@ def gen_line(rng, tag, libnames, imposable, span, from_roadm, to_roadm, vector_l
         shape = rng.random()
         short = rng.random() < 0.25
         ram = rng.random() < 0.06
-        if shape < 0.7:
+        if rng.random() < 0.12:
+            # a short span spliced from 2-3 fibres through Fused nodes: the padding goes to the FIRST fibre, the cached
+            # design loss lives on the LAST one
+            for j in range(rng.choice([2, 2, 3])):
+                if j:
+                    els.append({'uid': uid('fused'), 'type': 'Fused', 'params': {'loss': rng.choice([0, 0.2, 0.5])}})
+                f_ = gen_fiber_el(rng, uid('fiber'), True)
+                f_['params']['length'] = round(rng.uniform(1, 14), 1)
+                f_['params'].pop('lumped_losses', None)
+                els.append(f_)
+        elif shape < 0.7:
             els.append(gen_fiber_el(rng, uid('fiber'), short, vector_loss and not ram, raman=ram))
         elif shape < 0.85:
             els.append(gen_fiber_el(rng, uid('fiber'), short, vector_loss))
@@ -271,12 +281,22 @@ def gen_case(rng, for_c10=False):
             if s != x or rng.random() > 0.3:
                 continue
             first = l[0]
-            deg = first['uid'] if first['type'] != 'Fiber' else f"Edfa_booster_roadm {s}_to_{first['uid']}"
+            deg = first['uid'] if first['type'] not in ('Fiber', 'RamanFiber') else f"Edfa_booster_roadm {s}_to_{first['uid']}"
             kind = rng.choice(['per_degree_pch_out_db', 'per_degree_pch_out_db', 'per_degree_psd_out_mWperGHz',
                                'per_degree_psd_out_mWperSlotWidth'])
             rp.setdefault(kind, {})[deg] = {'per_degree_pch_out_db': rng.choice([-19, -17, -22.5, -14]),
                                             'per_degree_psd_out_mWperGHz': rng.choice([2.5e-4, 6.0e-4]),
                                             'per_degree_psd_out_mWperSlotWidth': rng.choice([1.5e-4, 3.5e-4])}[kind]
+        # per-degree design band carrying its own spacing (the design channel count of the degree follows it)
+        for (s, t), l in lines.items():
+            if s != x or rng.random() > 0.3:
+                continue
+            first = l[0]
+            deg = first['uid'] if first['type'] not in ('Fiber', 'RamanFiber') else f"Edfa_booster_roadm {s}_to_{first['uid']}"
+            lo = rng.choice([191.3e12, 191.4e12, 192.0e12])
+            rp.setdefault('per_degree_design_bands', {})[deg] = [
+                {'f_min': lo, 'f_max': lo + rng.choice([1.0e12, 2.4e12, 3.6e12, 4.0e12]),
+                 'spacing': rng.choice([37.5e9, 50e9, 75e9, 100e9, 62.5e9])}]
         el = {'uid': f'roadm {x}', 'type': 'Roadm', 'params': rp}
         if rng.random() < 0.3:
             el['type_variety'] = 'r1'
@@ -437,6 +457,7 @@ def design(built):
         bands = getattr(o['start'], 'per_degree_design_bands', {}).get(o['nodes'][0].uid) or []
         o['band'] = (float(bands[0]['f_min']), float(bands[0]['f_max'])) if bands else (float(si['f_min']), float(si['f_max']))
         o['nbands'] = len(bands)
+        o['design_band'] = design_band_of(built, o)
     return built
 
 
@@ -494,17 +515,22 @@ def start_power(built, o, pref_ch):
     ej = built['elem_json'][st.uid]
     deg = o['nodes'][0].uid
     p = ej.get('params', {})
+    o['p0_kind'] = 'power'
     if deg in p.get('per_degree_pch_out_db', {}):
         return float(p['per_degree_pch_out_db'][deg])
     if deg in p.get('per_degree_psd_out_mWperGHz', {}):
+        o['p0_kind'] = 'psd'
         return db(p['per_degree_psd_out_mWperGHz'][deg] * si['baud_rate'] * 1e-9)
     if deg in p.get('per_degree_psd_out_mWperSlotWidth', {}):
+        o['p0_kind'] = 'psw'
         return db(p['per_degree_psd_out_mWperSlotWidth'][deg] * si['spacing'] * 1e-9)
     k, v = roadm_policy(ej, case['roadm'])
     if k == 'target_pch_out_db':
         return float(v)
     if k == 'target_psd_out_mWperGHz':
+        o['p0_kind'] = 'psd'
         return db(v * si['baud_rate'] * 1e-9)
+    o['p0_kind'] = 'psw'
     return db(v * si['spacing'] * 1e-9)
 
 
@@ -577,8 +603,23 @@ def oms_pref_total(case, o, pref_ch):
     if si.get('use_si_channel_count_for_design', True):
         nch = int((si['f_max'] - si['f_min']) // si['spacing'])
     else:
-        nch = int((o['band'][1] - o['band'][0]) // si['spacing'])
+        lo, hi, sp = o['design_band']
+        nch = int((hi - lo) // sp)
+    o['design_nch'] = nch
     return pref_ch + db(nch)
+
+
+def design_band_of(built, o):
+    """(f_min, f_max, spacing) of the design band of the OMS, from the generated inputs where they give it (per-degree
+    design band of the ingress ROADM, with its own spacing), else the band the implementation derived with the SI
+    spacing"""
+    si = built['case']['si']
+    ej = built['elem_json'].get(o['start'].uid, {})
+    pd = ej.get('params', {}).get('per_degree_design_bands', {}).get(o['nodes'][0].uid)
+    if pd:
+        b_ = sorted(pd, key=lambda x_: x_['f_min'])[0]
+        return float(b_['f_min']), float(b_['f_max']), float(b_.get('spacing', si['spacing']))
+    return o['band'][0], o['band'][1], float(si['spacing'])
 
 
 def net_term(built, omses, p0s, pref_ch, pref_total=None):
@@ -612,8 +653,15 @@ def propagate_oms(built, o, p0, pref_ch):
     else:
         path += [en]
     path = copy.deepcopy(path)                      # propagation leaves traces on the elements
-    si = create_input_spectral_information(f_min=si_c['f_min'], f_max=si_c['f_max'], roll_off=si_c['roll_off'],
-                                           baud_rate=si_c['baud_rate'], spacing=si_c['spacing'],
+    f_lo, f_hi, sp_ = si_c['f_min'], si_c['f_max'], si_c['spacing']
+    if not si_c.get('use_si_channel_count_for_design', True):
+        f_lo, f_hi, sp_ = o['design_band']           # the design load of the degree: its own band and spacing
+    # (the reference carrier keeps the SI baud rate and slot width: a PSW target, or a baud rate that does not fit the
+    # band's spacing, makes the design load itself inconsistent - not judged by propagation)
+    if sp_ != si_c['spacing'] and (o.get('p0_kind') == 'psw' or si_c['baud_rate'] > sp_):
+        return None
+    si = create_input_spectral_information(f_min=f_lo, f_max=f_hi, roll_off=si_c['roll_off'],
+                                           baud_rate=si_c['baud_rate'], spacing=sp_,
                                            tx_osnr=si_c['tx_osnr'], tx_power=dbm2watt(tx))
     rec = []
     for i, el in enumerate(path[:-1]):
@@ -818,13 +866,7 @@ def judge_mb(ctx, built, line, pref_ch):
             continue
         # fibres
         fsn = [(s_, ob) for s_, ob in zip(o['snap'], o['obs']) if s_['t'] == 'fiber']
-        tie = False
-        for (s_, ob), fm in zip(fsn, m['fibs']):
-            if fm['dsl'] is not None:
-                bumped = fm['att_in'] - s_['att_in']
-                margin = bumped if bumped > 0 else fm['dsl'] - span['padding']
-                if abs(margin) < TOL:
-                    tie = True
+        tie = padding_tie(o['snap'], m['fibs'], span['padding'])
         if tie:
             ctx.count('mb_oms_not_judged_padding_tie')
             continue
@@ -913,6 +955,35 @@ def close(a, c):
 
 
 # ------------------------------------------------------------------ run
+def padding_tie(snaps, model_fibs, padding):
+    """is some span of the OMS within 1e-9 of the padding threshold?  The padding goes to the FIRST fibre of the span
+    (when the span starts with a fibre), the cached design loss is on the LAST one"""
+    k = -1                     # index in the fibre list
+    first = None               # fibre-list index of the first element of the current span, if it is a fibre
+    in_span = False
+    for sn in snaps:
+        if sn['t'] == 'fiber':
+            k += 1
+            if not in_span:
+                first = k
+            in_span = True
+            fm = model_fibs[k]
+            if fm['dsl'] is not None:
+                raw_first = [x for x in snaps if x['t'] == 'fiber'][first]['att_in'] if first is not None else None
+                bump = (model_fibs[first]['att_in'] - raw_first) if first is not None else 0.0
+                margin = bump if bump > TOL else fm['dsl'] - padding
+                if abs(margin) < TOL:
+                    return True
+        elif sn['t'] == 'fused':
+            if not in_span:
+                first = None
+            in_span = True
+        else:
+            in_span = False
+            first = None
+    return False
+
+
 def strip(c):
     return {k: v for k, v in c.items() if not k.startswith('_')}
 
@@ -1039,13 +1110,7 @@ def run(ctx):
                                case, model=m['err'])
                 continue
             # ---- tie rule: padding threshold
-            tie = False
-            for s, fo, fm in zip([s for s in o['snap'] if s['t'] == 'fiber'], o['fibs'], m['fibs']):
-                if fm['dsl'] is not None:
-                    bumped = fm['att_in'] - s['att_in']
-                    margin = bumped if bumped > 0 else fm['dsl'] - span['padding']
-                    if abs(margin) < TOL:
-                        tie = True
+            tie = padding_tie(o['snap'], m['fibs'], span['padding'])
             if tie:
                 ctx.count('oms_not_judged_padding_tie')
                 continue
@@ -1088,6 +1153,9 @@ def run(ctx):
                     rec = propagate_oms(built, o, p0, pref_ch)
                 except Exception as e:
                     ctx.count('propagation_failed:' + type(e).__name__)
+                    continue
+                if rec is None:
+                    ctx.count('oms_design_load_not_propagated')
                     continue
                 oracle_propagation(ctx, c, built, o, p0, pref_ch, rec, desc, case)
     ctx.assumptions += [
